@@ -216,10 +216,10 @@ fn parse_field(base_data_size: usize, field: &Field) -> Result<FieldDefinition> 
                                     format!("bitfield!: Invalid bit-range {lower}..={upper}: the upper limit is smaller than the lower limit"),
                                 ));
                             }
-                            ranges.push(Range {
-                                start: lower,
-                                end: upper + 1,
-                            });
+                            let end = upper.checked_add(1).ok_or_else(|| {
+                                Error::new_spanned(&range_span, "bitfield!: Bit index is too large")
+                            })?;
+                            ranges.push(Range { start: lower, end });
                         }
                         ArgumentParser::RangeGotLowerLimit(lower) => {
                             if is_range && !is_in_array {
@@ -228,10 +228,10 @@ fn parse_field(base_data_size: usize, field: &Field) -> Result<FieldDefinition> 
                                     "bitfield!: bits requires a single bit, for examples bit(10). bits(10..=12) can be used to specify multiple bits",
                                 ));
                             }
-                            ranges.push(Range {
-                                start: lower,
-                                end: lower + 1,
-                            });
+                            let end = lower.checked_add(1).ok_or_else(|| {
+                                Error::new_spanned(&range_span, "bitfield!: Bit index is too large")
+                            })?;
+                            ranges.push(Range { start: lower, end });
                         }
                         ArgumentParser::ReadWrite => {
                             provide_getter = true;
@@ -380,8 +380,12 @@ fn parse_field(base_data_size: usize, field: &Field) -> Result<FieldDefinition> 
         }
 
         let highest_bit_index_in_ranges = ranges.iter().map(|range| range.end).max().unwrap_or(0);
-        let number_of_bits_indexed =
-            (indexed_count - 1) * indexed_stride.unwrap() + highest_bit_index_in_ranges;
+        // Checked arithmetic: the macro itself might be built without overflow checks
+        let number_of_bits_indexed = indexed_count
+            .saturating_sub(1)
+            .checked_mul(indexed_stride.unwrap())
+            .and_then(|bits| bits.checked_add(highest_bit_index_in_ranges))
+            .unwrap_or(usize::MAX);
         if number_of_bits_indexed > base_data_size {
             return Err(Error::new_spanned(
                 field.attrs.first(),
